@@ -46,6 +46,61 @@ def has_external_choices_obligations(ctx, rule, rid):
         rule.check(it.call_function(he, [js], {}, None, he.node) is want, f"has_external_choices[{desc}]", f"-> {want} (uses the type the row loop assigns)", he.loc())
 
 
+def or_other_obligations(ctx, rule, rid, w2j, loop):
+    """The or_other block of the row loop, evaluated as a dependency slice (the statements that mention the 'other'
+    choice constant and the companion question, plus the assignments they depend on) over the list shapes: the 'other'
+    choice is appended once iff the row says or_other and the list has none yet - as a per-language label when the list
+    is translated - and the companion text question is <name>_other, relevant when 'other' is selected."""
+    from ..rowloop import dependency_slice
+    anchors = [n for n in ast.walk(loop) if isinstance(n, ast.Attribute) and n.attr == "OR_OTHER_CHOICE"]
+    if not anchors:
+        rule.fail("or_other:block", "the row loop refers to the 'other' choice constant", w2j.loc(loop))
+        return
+    known = {"parse_dict": None, "choices": None, "row": None, "row_number": 7, "list_name": "l", "sheet_translations": None, "select_type": "select one", "warnings": None,
+             "question_name": "fruit", "parameters": {}}
+    comp_anchor = [x for x in ast.walk(loop) if isinstance(x, ast.Constant) and x.value == "Specify other."]
+    from ..loader import ancestors
+    guard_if = next((a_ for a_ in ancestors(anchors[0]) if isinstance(a_, ast.If) and "specify_other" in norm(a_.test)), None)
+    stmts = dependency_slice(w2j, loop, [*anchors, *comp_anchor[:1], *([guard_if.test] if guard_if is not None else [])], lambda nm: nm in known)
+    free = {n.id for st in stmts for n in ast.walk(st) if isinstance(n, ast.Name) and isinstance(n.ctx, ast.Load)}
+    A, B = {"name": "a", "label": "A"}, {"name": "b", "label": "B"}
+    TA, TB = {"name": "a", "label": {"en": "A", "fr": "Af"}}, {"name": "b", "label": {"en": "B"}}
+    cases = [
+        ("plain list", "or_other", [dict(A), dict(B)], {"name": "other", "label": "Other"}),
+        ("list that already has `other`", "or_other", [dict(A), {"name": "other", "label": "Mine"}], None),
+        ("translated list", "or_other", [dict(TA, label=dict(TA["label"])), dict(TB, label=dict(TB["label"]))], {"name": "other", "label": {"en": "Other", "fr": "Other"}}),
+        ("translated list with a plain-label choice", "or_other", [dict(TA, label=dict(TA["label"])), dict(B)], {"name": "other", "label": {"en": "Other", "fr": "Other"}}),
+        ("translated list with a choice without label", "or_other", [dict(TA, label=dict(TA["label"])), {"name": "b", "media": {"image": "b.png"}}], {"name": "other", "label": {"en": "Other", "fr": "Other"}}),
+        ("no or_other on the row", None, [dict(A), dict(B)], None),
+    ]
+    for desc, spec_other, lst, want_added in cases:
+        before = [dict(c) for c in lst]
+        env = dict(known)
+        env.update({"parse_dict": {"specify_other": spec_other, "list_name": "l", "select_command": "select_one"}, "choices": {"l": lst, "m": [dict(A)]}, "row": {"name": "fruit", "type": "select_one l or_other", "label": "F"},
+                    "sheet_translations": Obj(None, {"or_other_seen": False}, name="sheet_translations"), "warnings": []})
+        env = {k: v for k, v in env.items() if k in free}
+        itb = ctx.interp(rid)
+        itb.reset([])
+        try:
+            itb.exec_block(stmts, env, w2j.module)
+        except Raised as e:
+            rule.fail(f"or_other[{desc}]", f"the block evaluates (raises {e.exc_name}{e.exc_args})", w2j.loc(stmts[0]))
+            continue
+        added = lst[len(before):]
+        ok = lst[:len(before)] == before and (added == [want_added] if want_added is not None else added == [])
+        if ok and want_added is not None and isinstance(want_added["label"], dict):
+            ok = set(added[0]["label"]) == set(want_added["label"])
+        rule.check(ok, f"or_other[{desc}]", ("one 'other' choice is appended: " + repr(want_added)) if want_added is not None else "the list is left as it is", w2j.loc(stmts[0]),
+                   why_fail=f"appended {added!r}; first choices {'unchanged' if lst[:len(before)] == before else 'changed'}")
+        comp_ = env.get("specify_other_question")
+        if spec_other:
+            rule.check(comp_ == {"type": "text", "name": "fruit_other", "label": "Specify other.", "bind": {"relevant": "selected(../fruit, 'other')"}}, f"or_other[{desc}]:companion",
+                       "companion is a text question <name>_other relevant when 'other' is selected in the select", w2j.loc(stmts[0]), why_fail=repr(comp_))
+        else:
+            rule.check(comp_ is None, f"or_other[{desc}]:companion", "no companion question without or_other", w2j.loc(stmts[0]), why_fail=repr(comp_))
+    # the shared constant is never handed out by reference into a list the loop mutates later... (value equality is what is decided here)
+
+
 def _ix_hook(i, a, k, n):
     """Stand-in for Survey.insert_xpaths(text, context, use_current=False, ...): `S[text]`, plus `@cur` when the caller asks
     for current()-prefixed relative paths (needed inside a predicate over a secondary instance)."""
@@ -389,21 +444,7 @@ def run(ctx):
     loop = _row_loop(w2j)
     oo = ctx.consts.get("pyxform.constants", "OR_OTHER_CHOICE", "C09.R6")
     r6.check(oo == {"name": "other", "label": "Other"}, "OR_OTHER_CHOICE", "the added choice is name 'other', label 'Other'", "pyxform/constants.py", why_fail=repr(oo))
-    apps = [c for c in walk_own(loop) if isinstance(c, ast.Call) and call_name(c) == "append" and isinstance(c.func.value, ast.Name) and c.func.value.id == "itemset_choices"]
-    r6.check(len(apps) == 2, "or_other:append sites", "two alternative append sites (translated / untranslated list)", w2j.loc(loop))
-    for c in apps:
-        gts = " && ".join(guard_texts(c, stop=loop))
-        r6.check("not any((c[constants.NAME] == constants.OR_OTHER_CHOICE[constants.NAME] for c in itemset_choices))" in gts and "parse_dict.get('specify_other') is not None" in gts,
-                 f"or_other:{norm(c)[:40]}", "the choice is appended only for or_other rows and only if the list has no 'other' yet", w2j.loc(c), why_fail=gts[-200:])
-    comp = [x for x in walk_own(loop) if isinstance(x, ast.Assign) and isinstance(x.targets[0], ast.Name) and x.targets[0].id == "specify_other_question" and isinstance(x.value, ast.Dict)]
-    if len(comp) == 1:
-        it = ctx.interp("C09.R6")
-        it.reset([])
-        val = it.eval(comp[0].value, {"row": {"name": "fruit"}}, w2j.module)
-        r6.check(val == {"type": "text", "name": "fruit_other", "label": "Specify other.", "bind": {"relevant": "selected(../fruit, 'other')"}}, "or_other:companion",
-                 "companion is a text question <name>_other relevant when 'other' is selected in the select", w2j.loc(comp[0]), why_fail=repr(val))
-    else:
-        r6.fail("or_other:companion", "companion question literal found", w2j.loc(loop))
+    or_other_obligations(ctx, r6, "C09.R6", w2j, loop)
     rules.append(r6)
 
     # ------------------------------------------------------------------ R7
